@@ -49,7 +49,8 @@ func (f *File) Open(prop string) map[string]Finding {
 func (f *File) AvoidSet(prop string) map[string]bool {
 	out := map[string]bool{}
 	for _, x := range f.Findings {
-		if x.Property == prop && x.Status == "open" && x.Avoid != "" {
+		// an input class is avoided by every property's generator while the finding is open
+		if x.Status == "open" && x.Avoid != "" {
 			out[x.Avoid] = true
 		}
 	}
